@@ -108,6 +108,8 @@ Proof.
   replace (2000 + c_year c mod 100) with (c_year c) by lia.
   assert (Z.abs (offset_quarters c * 15 / 1440) <=? 999999999 = true) as Hsmall by (apply Z.leb_le; lia).
   assert (Z.abs (- (offset_quarters c * 15) / 1440) <=? 999999999 = true) as Hsmall' by (apply Z.leb_le; lia).
+  assert (1440 <=? Z.abs (offset_quarters c * 15) = false) as Hday.
+  { apply Z.leb_gt. unfold offset_quarters, quarter_offset in *. destruct (c_off c) as [o|]; [destruct Hq as [k [Hk ->]]|]; lia. }
   assert (valid_datetime (c_year c) (c_month c) (c_day c) (c_hour c) (c_minute c) (c_second c)
                          (c_us c / 100000 * 100000) = true) as Hv'.
   { unfold valid_datetime in *. repeat (apply andb_prop in Hv as [Hv ?]).
@@ -117,11 +119,11 @@ Proof.
   destruct (c_off c) as [o|].
   - destruct Hq as [k [Hk ->]].
     destruct (Z.ltb_spec (900 * k) 0) as [Hneg|Hpos].
-    + change (list_eqb [45] [45]) with true. cbv iota. rewrite Hsmall'. cbn [negb]. rewrite Hv'.
+    + rewrite Hday. change (list_eqb [45] [45]) with true. cbv iota. rewrite Hsmall'. cbn [negb]. rewrite Hv'.
       do 4 f_equal; lia.
-    + change (list_eqb [43] [45]) with false. cbv iota. rewrite Hsmall. cbn [negb]. rewrite Hv'.
+    + rewrite Hday. change (list_eqb [43] [45]) with false. cbv iota. rewrite Hsmall. cbn [negb]. rewrite Hv'.
       do 4 f_equal; lia.
-  - change (list_eqb [43] [45]) with false. cbv iota. rewrite Hsmall. cbn [negb]. rewrite Hv'.
+  - rewrite Hday. change (list_eqb [43] [45]) with false. cbv iota. rewrite Hsmall. cbn [negb]. rewrite Hv'.
     do 4 f_equal; lia.
 Qed.
 
